@@ -1114,6 +1114,110 @@ def run(ctx):
     ctx.violations = list(first.values())
     # profiles with their own ballot types side by side in one process (predicate only; the table model has no ballot types)
     run_validation_histories(ctx, ctx.scale(1200, 8000), ctx.scale(1500, 8000))
+    counter_stream(ctx, ctx.scale(1500, 10000))  # round 6 (drawn last)
+
+
+# ----------------------------------------------------------------------------------------------
+# Counter arithmetic (model PabuModel/CounterArith, theorems Properties/C17Counter): the binary and unary operators a multiprofile
+# inherits from collections.Counter, on operands with ANY integer counts, and the re-validating wrapper of `_wrap_methods`
+
+COUNTER_OPS = {"add": "__add__", "sub": "__sub__", "or": "__or__", "and": "__and__", "pos": "__pos__", "neg": "__neg__"}
+COUNTER_KINDS = {"app": ("ApprovalMultiProfile", "FrozenApprovalBallot", "FrozenOrdinalBallot"),
+                 "ord": ("OrdinalMultiProfile", "FrozenOrdinalBallot", "FrozenApprovalBallot"),
+                 "card": ("CardinalMultiProfile", "FrozenCardinalBallot", "FrozenApprovalBallot"),
+                 "cum": ("CumulativeMultiProfile", "FrozenCumulativeBallot", "FrozenCardinalBallot")}
+N_VALID = 4  # keys 0..3 are ballots of the profile's type, keys 4, 5 are ballots of another type
+
+
+def gen_counter_case(r):
+    def counter(lo, keys):
+        ks = r.sample(keys, r.randint(0, min(4, len(keys))))
+        return [[k, r.choice([-3, -2, -1, -1, 0, 0, 1, 1, 2, 3][lo:])] for k in ks]
+
+    op = r.choice(list(COUNTER_OPS))
+    a = counter(0, list(range(N_VALID)))  # the multiprofile: ballots of its own type, any counts (update/subtract/__setitem__ store them)
+    b = counter(0, list(range(N_VALID + 2))) if op not in ("pos", "neg") else []
+    return {"stream": "counter_arith", "kind": r.choice(list(COUNTER_KINDS)), "op": op, "A": a, "B": b, "operand": r.choice(["Counter", "dict", "multiprofile_novalidation"])}
+
+
+def counter_line(c, validated):
+    enc = lambda l: ",".join(f"{k}:{n}" for k, n in l)  # noqa: E731
+    return f"counter op={c['op']} A={enc(c['A'])} B={enc(c['B'])}" + (" V=" + ".".join(str(k) for k in range(N_VALID)) if validated else "")
+
+
+def counter_python(c):
+    """CPython's own Counter on the same operands"""
+    A, B = Counter(dict(map(tuple, c["A"]))), Counter(dict(map(tuple, c["B"])))
+    r = {"add": lambda: A + B, "sub": lambda: A - B, "or": lambda: A | B, "and": lambda: A & B, "pos": lambda: +A, "neg": lambda: -A}[c["op"]]()
+    return "ok " + (",".join(f"{k}:{n}" for k, n in r.items()) or "-")
+
+
+def counter_library(c):
+    """the library's multiprofile (validation on) with the same operands; keys 0..3 are ballots of its type, 4 and 5 are not"""
+    import pabutools.election as e
+
+    cls_name, own, other = COUNTER_KINDS[c["kind"]]
+    cls, Own, Other = getattr(e, cls_name), getattr(e, own), getattr(e, other)
+    projs = [e.Project("p%d" % i, 1) for i in range(6)]
+
+    def mk(T, i, off=0):
+        # (ballots of different classes with the same content compare equal: the intruders are about other projects)
+        members = [[0], [1], [2], [0, 1]][i]
+        if issubclass(T, dict):
+            return T({projs[off + j]: 1 + i for j in members})
+        return T([projs[off + j] for j in members])
+
+    ballots = [mk(Own, i) for i in range(N_VALID)] + [mk(Other, i, 3) for i in range(2)]
+    key_of = {b: i for i, b in enumerate(ballots)}
+    if len(key_of) != len(ballots):
+        raise core.DriverError("counter_library: ballots not distinct")
+    A = cls({ballots[k]: n for k, n in c["A"]})
+    if [(key_of[b], n) for b, n in A.items()] != [tuple(x) for x in c["A"]]:
+        return "harness: the multiprofile constructor did not store the counts as given: %r" % [(key_of[b], n) for b, n in A.items()]
+    Bd = {ballots[k]: n for k, n in c["B"]}
+    B = Counter(Bd) if c["operand"] == "Counter" else (dict(Bd) if c["operand"] == "dict" and c["op"] in () else Counter(Bd))
+    if c["operand"] == "multiprofile_novalidation":
+        B = cls(Bd, ballot_validation=False)
+    try:
+        r = {"add": lambda: A + B, "sub": lambda: A - B, "or": lambda: A | B, "and": lambda: A & B, "pos": lambda: +A, "neg": lambda: -A}[c["op"]]()
+    except TypeError:
+        return "err type"
+    except Exception as ex:  # noqa: BLE001
+        return "err " + type(ex).__name__
+    if type(r) is not cls:
+        return "ok-but-class " + type(r).__name__
+    return "ok " + (",".join(f"{key_of[b]}:{n}" for b, n in r.items()) or "-")
+
+
+def counter_stream(ctx, n, compare=True):
+    r = random.Random(ctx.rng.getrandbits(48))
+    cases = [gen_counter_case(r) for _ in range(n)]
+    lines = [counter_line(c, False) for c in cases] + [counter_line(c, True) for c in cases]
+    model = core.run_driver(lines) if compare else None
+    for i, c in enumerate(cases):
+        ctx.evaluations += 1
+        ctx.count("counter_arith", c["op"])
+        py = counter_python(c)
+        lib = counter_library(c)
+        sig = {"call": "Counter." + COUNTER_OPS[c["op"]], "stream": "counter_arith"}
+        if model is not None:
+            m_plain, m_wrapped = model[i].strip(), model[n + i].strip()
+            if m_plain != py:
+                ctx.disagreements.append({"line": lines[i], "impl": py, "model": m_plain, "case": c, "what": "collections.Counter differs from the model of its arithmetic"})
+            if m_wrapped != lib:
+                ctx.disagreements.append({"line": lines[n + i], "impl": lib, "model": m_wrapped, "case": c, "what": "the multiprofile operator differs from the re-validating wrapper of the model"})
+        # the property itself, on the library's answer: a validated multiprofile holds no ballot of another type, and keeps its class
+        wrong_in_result = lib.startswith("ok ") and any(int(t.split(":")[0]) >= N_VALID for t in lib[3:].split(",") if ":" in t)
+        if wrong_in_result or lib.startswith("ok-but-class") or lib.startswith("harness"):
+            ctx.violations.append({"what": f"{COUNTER_KINDS[c['kind']][0]} {c['A']} {COUNTER_OPS[c['op']]} {c['operand']} {c['B']} (keys >= {N_VALID} are ballots of another type) -> {lib}",
+                                   "case": c, "cfg": {}, "impl": lib, "expected": "TypeError, or a multiprofile without the wrong-typed ballots", "sig": dict(sig, check="validation" if wrong_in_result else "type")})
+        elif lib.startswith("err") and lib != "err type":
+            ctx.violations.append({"what": f"multiprofile operator raised {lib[4:]}", "case": c, "cfg": {}, "impl": lib, "expected": py, "sig": dict(sig, check="raised")})
+        elif lib == "err type" and not any(k >= N_VALID for k, _ in c["B"]):
+            ctx.violations.append({"what": "multiprofile operator refused operands of its own ballot type", "case": c, "cfg": {}, "impl": lib, "expected": py, "sig": dict(sig, check="refused_own_type")})
+        if any(k >= N_VALID and nn < 0 for k, nn in c["B"]) and c["op"] == "sub":
+            ctx.nontrivial.add("counter:" + json.dumps(c, sort_keys=True))
+        ctx.sample(f"{lines[n + i]} -> library {lib} | python Counter {py}", cap=10)
 
 
 def search(ctx, disagreements):
@@ -1136,6 +1240,8 @@ def search(ctx, disagreements):
             break
     if len(ctx.violations) < 5:
         run_validation_histories(ctx, 3000, 3000)
+    if len(ctx.violations) < 5:
+        counter_stream(ctx, 6000, compare=False)
 
 
 def replay(payload):
@@ -1143,6 +1249,11 @@ def replay(payload):
     if not case:
         _, _, unknown, missing = discover("Instance")
         return (not unknown, "unclassified API: %s" % unknown)
+    if case.get("stream") == "counter_arith":
+        lib = counter_library(case)
+        bad = (lib.startswith("ok ") and any(int(t.split(":")[0]) >= N_VALID for t in lib[3:].split(",") if ":" in t)) or lib.startswith("ok-but") or \
+            lib.startswith("harness") or (lib.startswith("err") and lib != "err type") or (lib == "err type" and not any(k >= N_VALID for k, _ in case["B"]))
+        return (not bad), ("still fails: " if bad else "property holds on the replayed operands: ") + lib
     if case.get("stream") == "validation_history":
         res = run_vworker(case["histories"])
         viol = [x for r in res for x in r["viol"]]
